@@ -111,7 +111,8 @@ var addCmd = &cobra.Command{
 			if _, err := os.Stat(arg); os.IsNotExist(err) {
 				_, _, isEntryFound := client.Idx.GetEntry([]byte(cleanedArg))
 				if !isEntryFound {
-					return fmt.Errorf(`path "%s" did not match any files`, arg)
+					// the path passed the validation above, so an earlier argument has already removed it
+					continue
 				}
 				if err := client.Idx.DeleteEntry(client.RootGoitPath, []byte(cleanedArg)); err != nil {
 					return fmt.Errorf("fail to delete untracked file %s: %w", cleanedArg, err)
